@@ -219,13 +219,21 @@ CHECKS = {'C01': {'level': 'exploration',
                  'upsert callback runs on the existing row iff present; SetKey errors iff the key is taken); after every transaction every alphabet '
                  "key resolves (QueryKey + Row.Key) to exactly the model's row or fails, and a full scan finds no two live rows with one key. "
                  'non-trivial = a key that had been deleted or re-keyed away is successfully used again, or >=2 key operations on one key in one '
-                 'committed transaction; distinct = hash of the trace',
+                 'committed transaction; distinct = hash of the trace | concurrent part (TestC12Parallel, free parallelism): 2..8 goroutines x '
+                 '50..400 key operations over 2..12 keys (+ optional 100 / 16380 pre-filled keyed rows that are deleted and re-inserted to force '
+                 'offset reuse); creating operations for a key come from its owner only (finding f17), and while finding f26 is listed a key is '
+                 'touched by its owner only (counted). Oracle at quiescence: at most one live row per key, for every key a lookup succeeds iff '
+                 'exactly that row holds it, Count == visible rows',
          'assumptions': ['existence is judged against the committed table when the operation is issued (documented mechanism)',
                          'the key column is written only through InsertKey/UpsertKey/SetKey (SetAny on the key column bypasses the duplicate test '
                          'and is outside the property)'],
          'tests': [{'run': '^TestC12$',
                     'checks': {'quick': 400, 'thorough': 4000},
                     'shards': {'quick': 1, 'thorough': 16},
+                    'timeout': {'quick': 900, 'thorough': 3400}},
+                   {'run': '^TestC12Parallel$',
+                    'checks': {'quick': 300, 'thorough': 6000},
+                    'shards': {'quick': 1, 'thorough': 4},
                     'timeout': {'quick': 900, 'thorough': 3400}}]},
  'C13': {'level': 'fault_enumeration',
          'rule': 'files: (i) snapshots of generated collections (0..3 blocks, thinned to a few dozen rows on block/word boundaries, keyed or not) '
